@@ -18,6 +18,7 @@ pub struct Outcome {
     pub heap: String,
     pub out: String,
     pub idle_state: String, // return/loop/builder stacks, only compared for successful runs
+    pub errloc: String,     // what the failure is blamed on (token range, line, column), and whether an error is on record
 }
 
 pub fn drive(base: &Xstate, src: &str, mode: usize, recording: bool, with_input: bool) -> Result<Outcome, String> {
@@ -29,25 +30,41 @@ pub fn drive(base: &Xstate, src: &str, mode: usize, recording: bool, with_input:
     xs.set_recording_enabled(recording);
     xs.set_insn_limit(Some(LIMIT)).unwrap();
     watch::note(src);
-    let r = guarded(|| match mode {
-        0 => xs.eval(src),
-        1 => xs.compile(src).and_then(|_| xs.run()),
-        _ => {
-            xs.compile(src)?;
-            let mut steps = 0;
-            while xs.is_running() {
-                xs.next()?;
-                steps += 1;
-                if steps > 4 * LIMIT {
-                    return Err(Xerr::ErrorMsg("harness: step cap".into()));
-                }
+    // several sources (separated by ` ;;; `) are submitted one after the other, each in the same way
+    let r = guarded(|| {
+        let mut last = OK;
+        for part in src.split(" ;;; ") {
+            last = match mode {
+                0 => xs.eval(part),
+                1 => xs.compile(part).and_then(|_| xs.run()),
+                _ => (|| {
+                    xs.compile(part)?;
+                    let mut steps = 0;
+                    while xs.is_running() {
+                        xs.next()?;
+                        steps += 1;
+                        if steps > 4 * LIMIT {
+                            return Err(Xerr::ErrorMsg("harness: step cap".into()));
+                        }
+                    }
+                    OK
+                })(),
+            };
+            if last.is_err() {
+                break;
             }
-            OK
         }
+        last
     })?;
     let d = xs.verif_dump_light();
     let kind = res_kind(&r);
+    let errloc = if r.is_err() {
+        format!("{:?}", xs.last_err_location().map(|l| (l.token.range().start, l.token.range().end, l.line, l.col)))
+    } else {
+        String::new()
+    };
     Ok(Outcome {
+        errloc,
         kind,
         stack: dump_get(&d, "data").to_string(),
         heap: dump_get(&d, "heap").to_string(),
@@ -74,6 +91,8 @@ fn compare(src: &str, start: &str, with_input: bool, outs: &[(String, Outcome)],
             diff = Some(("variables", o0.heap.clone(), o.heap.clone()));
         } else if o.kind == "Ok" && o.idle_state != o0.idle_state {
             diff = Some(("call/loop/builder-stacks", o0.idle_state.clone(), o.idle_state.clone()));
+        } else if o.kind != "Ok" && o.errloc != o0.errloc {
+            diff = Some(("error-location", o0.errloc.clone(), o.errloc.clone()));
         } else if o.kind != "Ok" && o.stack != o0.stack {
             // after a failing primitive the stack is whatever that primitive left: still the same
             // code ran, so the same residue is expected in every drive mode
@@ -158,6 +177,12 @@ pub fn run(cfg: &Cfg) -> i32 {
         "\"a\" print : foo immediate \"i\" print ; \"b\" print foo \"c\" print",
         ": foo immediate 1 drop ; 3 0 do I foo loop",
         ": foo immediate 5 ; true if 1 foo else 2 then",
+        // programs in several sources: a late-bound word called before and after its meaning changes, an
+        // immediate word that reads and writes a variable of an earlier source, a failure followed by more work
+        "late lw : lb lw ; : lw 1 ; lb ;;; : lw 2 ; lb",
+        "late lw : lb lw ; 1 var lw lb ;;; 2 ! lw lb ;;; : lw 3 ; lb",
+        "0 var cnt : bump immediate cnt 1 + ! cnt ; ;;; bump bump cnt",
+        "1 var cnt : peek immediate cnt print ; ;;; 5 ! cnt ;;; peek peek",
     ] {
         tpl.push(t.to_string());
     }
@@ -174,6 +199,18 @@ pub fn run(cfg: &Cfg) -> i32 {
                     compare(src, "", true, &outs, &rep, &mut local)
                 }
                 Err(p) => rep.report_w("panic", src.len() as u64, || jo(vec![("source", js(src.clone())), ("panic", js(p))])),
+            }
+        }
+        // ... and under a stack limit that the program may hit at any of its words (single-source programs)
+        for lim in [2usize, 4] {
+            let mut b3 = boot();
+            b3.set_stack_limit(Some(lim)).unwrap();
+            for src in tpl.iter().filter(|s| !s.contains(" ;;; ")) {
+                nprog.fetch_add(1, Ordering::Relaxed);
+                match six(&b3, src, true) {
+                    Ok(outs) => compare(src, &format!("fresh, set_stack_limit(Some({}))", lim), true, &outs, &rep, &mut local),
+                    Err(p) => rep.report_w("panic", src.len() as u64, || jo(vec![("source", js(src.clone())), ("stack_limit", ji(lim)), ("panic", js(p))])),
+                }
             }
         }
         // ... and from idle interpreters that are not fresh (values on the stack, a variable defined)
